@@ -436,6 +436,7 @@ def rule_sph_twin(chk, tus):
     # never writes read as 0
     ev0 = tc.Ev(tu)
     ev0.lenient = True
+    ev0.inline_calls = True  # the set-up may be split into helpers that take the buffer by pointer
     env0 = tc.new_env()
     ev0.block(tu.body("setup_sph_harm_buffer"), env0)
     nonzero = {st["root"].split("@")[0] for st in env0["stores"] if st["value"].t}
